@@ -767,8 +767,22 @@ class Gen:
             c1 = self.d(gt.values(ct))
             c2 = c1 if self.d(st.booleans()) else self.d(gt.near(ct, c1))
             a1, a2 = self.d(st.integers(1, 9)), self.d(st.integers(1, 9))
-            return [push(T("nat"), a1), push(ct, c1), P("TICKET"), unwrap, push(T("nat"), a2), push(ct, c2), P("TICKET"), unwrap,
-                    P("PAIR"), P("JOIN_TICKETS")]
+            route = self.pick(["push", "push", "dup", "built"]) if c1 == c2 else "push"
+            if route == "dup":      # one contents value, duplicated, used for both tickets
+                return [push(ct, c1), P("DUP"), push(T("nat"), a1), P("SWAP"), P("TICKET"), unwrap, P("SWAP"),
+                        push(T("nat"), a2), P("SWAP"), P("TICKET"), unwrap, P("PAIR"), P("JOIN_TICKETS")]
+            second = [push(ct, c2)]
+            if route == "built":    # the second contents value is assembled by instructions instead of being pushed as a literal
+                a = rv.targs(ct)
+                if ct["prim"] == "or":
+                    i = 0 if c2[0] == "Left" else 1
+                    second = [push(a[i], c2[1]), P("LEFT" if i == 0 else "RIGHT", a[1 - i])]
+                elif ct["prim"] == "option":
+                    second = [P("NONE", a[0])] if c2 is None else [push(a[0], c2[1]), P("SOME")]
+                elif ct["prim"] == "pair":
+                    second = [push(a[1], c2[1]), push(a[0], c2[0]), P("PAIR")]
+            return [push(T("nat"), a1), push(ct, c1), P("TICKET"), unwrap, push(T("nat"), a2)] + second + [P("TICKET"), unwrap,
+                                                                                                         P("PAIR"), P("JOIN_TICKETS")]
         if o == "splitjoin":
             ct = self.pick([T("nat"), T("unit")])
             amt = self.d(st.integers(2, 12))
